@@ -291,7 +291,10 @@ def obligations(tier):
         expect_witnesses=lambda p: ["parsed", "read_error"] + (["invalid_first_line_becomes_body"] if p["N"] >= 1 else [])
         + (["header_and_body"] if p["N"] >= 4 else []) + (["two_fields"] if p["N"] >= 6 else [])))
     obls.append(Obl("commands_line", "cmds.c", progs=[Prog("commands.c")], repo=["stralloc_opys.c", "stralloc_opyb.c", "byte_copy.c",
-                                                                                  "str_chr.c", "case_diffs.c"],
+                                                                                  "str_chr.c", "case_diffs.c",
+                                                                                  # the rest of the stralloc family, so that a rewrite of the line loop that uses
+                                                                                  # other members still links (a missing unit is an error, not a verdict)
+                                                                                  "stralloc_pend.c", "stralloc_catb.c", "stralloc_cats.c", "stralloc_cat.c"],
         grid=[{"N": n} for n in ((1, 4, 6, 8) if quick else range(0, 11))],
         unwind_default=lambda p: p["N"] + 3, timeout=600,
         functions=["commands.c:commands", "str_chr.c:str_chr", "case_diffs.c:case_diffs"],
